@@ -951,7 +951,295 @@ pub fn gen_function(rng: &mut Rng, idx: usize, shape: &ProgShape, flavor: Flavor
     sub(&plan.name, &plan.name, blocks, Some("__stdcall"))
 }
 
+// ---------------------------------------------------------------------------------------------------
+// assignment cycles across a block boundary (expression propagation, `update_def`)
+//
+// `Y = f(X); X = g(Y)` (or a cycle through three registers): the right-hand side of the last assignment does
+// not mention the assigned register, but its EXTENSION with the table does (`g(f(X))`), so the entry must not
+// stay in the table that is sent to the successors. The successor reads `X` in an observable position.
+
+/// `f(v)`: an expression over the register `v` (never mentioning the registers in `avoid`)
+fn cycle_fn(rng: &mut Rng, v: &str, avoid: &[&str]) -> Expression {
+    use BinOpType::*;
+    let x = || e_var(v, 8);
+    let others: Vec<&str> = REG8.iter().copied().filter(|r| *r != v && !avoid.contains(r)).collect();
+    let w = e_var(*rng.pick(&others), 8);
+    let c = *rng.pick(&[1u64, 2, 3, 8, 0x10, 0xff, 0xfffffffffffffff8, 0x7fffffff]);
+    match rng.below(14) {
+        0 => e_bin(IntAdd, x(), e_const(c, 8)),
+        1 => e_bin(IntSub, x(), e_const(c, 8)),
+        2 => e_bin(IntAdd, x(), x()),
+        3 => e_bin(IntXOr, x(), e_const(c, 8)),
+        4 => e_bin(IntAdd, x(), w),
+        5 => e_bin(IntSub, w, x()),
+        6 => e_bin(IntAdd, e_bin(IntAdd, x(), e_const(c, 8)), e_const(1, 8)), // rule pattern (x + c1) + c2
+        7 => e_bin(IntSub, e_bin(IntSub, x(), e_const(c, 8)), e_const(2, 8)), // rule pattern (x - c1) - c2
+        8 => e_bin(IntMult, x(), e_const(3, 8)),
+        9 => e_un(UnOpType::Int2Comp, x()),
+        10 => e_cast(CastOpType::IntZExt, 8, e_sub(0, 4, x())), // sub-register idiom
+        11 => e_bin(IntLeft, x(), e_const(1, 8)),
+        12 => e_bin(IntOr, e_bin(IntAnd, x(), e_const(0xff, 8)), w),
+        _ => e_bin(IntAdd, e_const(c, 8), x()),
+    }
+}
+
+/// the defs of one cycle through the registers `regs` (`regs[0]` is reassigned last), plus harmless defs between them
+fn cycle_defs(rng: &mut Rng, regs: &[&str], fns: &[Expression], bname: &str, dn: &mut usize) -> Vec<Term<Def>> {
+    let mut defs = Vec::new();
+    let mut push = |defs: &mut Vec<Term<Def>>, d: Def| {
+        defs.push(Term { tid: tid(&format!("{}_d{}", bname, *dn)), term: d });
+        *dn += 1;
+    };
+    let n = regs.len();
+    for k in 0..n {
+        // regs[1] = f0(regs[0]); regs[2] = f1(regs[1]); …; regs[0] = f_{n-1}(regs[n-1])
+        let target = regs[(k + 1) % n];
+        push(&mut defs, Def::Assign { var: var(target, 8), value: fns[k].clone() });
+        if k + 1 < n && rng.chance(1, 4) {
+            // a store in between does not touch the tables
+            push(&mut defs, Def::Store { address: e_bin(BinOpType::IntSub, e_var("RSP", 8), e_const(0x20, 8)), value: e_var(target, 8) });
+        }
+    }
+    defs
+}
+
+/// observable reads of the register `x` at the start of a successor block; returns the defs and the jumps
+fn cycle_reads(rng: &mut Rng, x: &str, avoid: &[&str], bname: &str, fname: &str, terminal: bool) -> (Vec<Term<Def>>, Vec<Term<Jmp>>, Vec<Term<Blk>>) {
+    use BinOpType::*;
+    let mut defs = Vec::new();
+    let mut dn = 0;
+    let mut push = |defs: &mut Vec<Term<Def>>, d: Def| {
+        defs.push(Term { tid: tid(&format!("{}_d{}", bname, dn)), term: d });
+        dn += 1;
+    };
+    let others: Vec<&str> = REG8.iter().copied().filter(|r| *r != x && !avoid.contains(r)).collect();
+    let xv = || e_var(x, 8);
+    let nreads = 1 + rng.below(3);
+    for _ in 0..nreads {
+        match rng.below(5) {
+            0 => push(&mut defs, Def::Store { address: e_bin(IntSub, e_var("RSP", 8), e_const(8, 8)), value: xv() }),
+            1 => push(&mut defs, Def::Store { address: e_bin(IntAdd, xv(), e_const(*rng.pick(&[0u64, 8, 0x10]), 8)), value: e_var(*rng.pick(&others), 8) }),
+            2 => push(&mut defs, Def::Load { var: var(*rng.pick(&others), 8), address: xv() }),
+            3 => push(&mut defs, Def::Assign { var: var(*rng.pick(&others), 8), value: xv() }),
+            _ => push(&mut defs, Def::Assign { var: var(*rng.pick(&others), 8), value: e_bin(IntAdd, xv(), e_const(1, 8)) }),
+        }
+    }
+    let mut extra = Vec::new();
+    let jmps = if !terminal {
+        vec![]
+    } else {
+        match rng.below(4) {
+            0 => vec![j_return(&format!("{}_j0", bname), xv())], // return target
+            1 => {
+                // jump condition
+                let c = match rng.below(3) {
+                    0 => e_bin(IntEqual, xv(), e_const(*rng.pick(&[0u64, 1, 12]), 8)),
+                    1 => e_bin(IntSLess, xv(), e_var(*rng.pick(&others), 8)),
+                    _ => e_bin(IntLess, e_const(0x100, 8), xv()),
+                };
+                let bt = format!("{}_t", bname);
+                let bf = format!("{}_f", bname);
+                extra.push(blk(&bt, vec![d_assign(&format!("{}_d0", bt), var("RAX", 8), e_const(1, 8))], vec![j_return(&format!("{}_j0", bt), e_const(0x401000, 8))]));
+                extra.push(blk(&bf, vec![d_assign(&format!("{}_d0", bf), var("RAX", 8), e_const(2, 8))], vec![j_return(&format!("{}_j0", bf), e_const(0x401000, 8))]));
+                vec![j_cbranch(&format!("{}_j0", bname), &bt, c), j_branch(&format!("{}_j1", bname), &bf)]
+            }
+            2 => vec![j_call(&format!("{}_j0", bname), "ext_a", None)],
+            _ => vec![j_return(&format!("{}_j0", bname), e_const(0x401000, 8))],
+        }
+    };
+    let _ = fname;
+    (defs, jmps, extra)
+}
+
+/// a function with an assignment cycle followed by a block boundary and reads of the reassigned register
+pub fn gen_cycle_function(rng: &mut Rng, idx: usize, counts: &mut BTreeMap<String, u64>) -> Term<Sub> {
+    let fname = format!("sub_{}", idx);
+    let bn = |i: usize| format!("s{}_b{}", idx, i);
+    let mut regs: Vec<&str> = REG8.to_vec();
+    rng.shuffle(&mut regs);
+    let n = if rng.chance(1, 3) { 3 } else { 2 };
+    let regs: Vec<&str> = regs[..n].to_vec();
+    let x = regs[0];
+    // f_k reads regs[k] and must not mention any other register of the cycle
+    let fns: Vec<Expression> = (0..n).map(|k| cycle_fn(rng, regs[k], &regs)).collect();
+    let mut count = |k: &str| *counts.entry(k.to_string()).or_insert(0) += 1;
+    count(&format!("cycle:len{}", n));
+    let mut blocks = Vec::new();
+    let mut prefix = |rng: &mut Rng, bname: &str, dn: &mut usize| -> Vec<Term<Def>> {
+        // sometimes a def before the cycle (a constant or a copy into a register outside the cycle)
+        let mut d = Vec::new();
+        if rng.chance(1, 3) {
+            let others: Vec<&str> = REG8.iter().copied().filter(|r| !regs.contains(r)).collect();
+            let e = if rng.chance(1, 2) { e_const(rng.below(100), 8) } else { e_bin(BinOpType::IntAdd, e_var(x, 8), e_const(4, 8)) };
+            d.push(Term { tid: tid(&format!("{}_d{}", bname, *dn)), term: Def::Assign { var: var(*rng.pick(&others), 8), value: e } });
+            *dn += 1;
+        }
+        d
+    };
+    match rng.below(3) {
+        0 => {
+            // unconditional jump
+            count("cycle:jump");
+            let mut dn = 0;
+            let mut d0 = prefix(rng, &bn(0), &mut dn);
+            d0.extend(cycle_defs(rng, &regs, &fns, &bn(0), &mut dn));
+            blocks.push(blk(&bn(0), d0, vec![j_branch(&format!("{}_j0", bn(0)), &bn(1))]));
+            let (d1, j1, extra) = cycle_reads(rng, x, &regs, &bn(1), &fname, true);
+            blocks.push(blk(&bn(1), d1, j1));
+            blocks.extend(extra);
+        }
+        1 => {
+            // conditional diamond whose arms agree (they do not touch the registers of the cycle)
+            count("cycle:diamond");
+            let mut dn = 0;
+            let mut d0 = prefix(rng, &bn(0), &mut dn);
+            d0.extend(cycle_defs(rng, &regs, &fns, &bn(0), &mut dn));
+            let cond = if rng.chance(1, 2) { e_var(*rng.pick(&FLAGS), 1) } else { e_bin(BinOpType::IntSLess, e_var(regs[1], 8), e_const(0, 8)) };
+            blocks.push(blk(&bn(0), d0, vec![j_cbranch(&format!("{}_j0", bn(0)), &bn(1), cond), j_branch(&format!("{}_j1", bn(0)), &bn(2))]));
+            let others: Vec<&str> = REG8.iter().copied().filter(|r| !regs.contains(r)).collect();
+            let arm = |rng: &mut Rng, i: usize| -> Term<Blk> {
+                let defs = if rng.chance(1, 2) {
+                    vec![d_assign(&format!("{}_d0", bn(i)), var(*rng.pick(&others), 8), e_const(rng.below(50), 8))]
+                } else {
+                    vec![]
+                };
+                blk(&bn(i), defs, vec![j_branch(&format!("{}_j0", bn(i)), &bn(3))])
+            };
+            let a1 = arm(rng, 1);
+            let a2 = arm(rng, 2);
+            blocks.push(a1);
+            blocks.push(a2);
+            let (d3, j3, extra) = cycle_reads(rng, x, &regs, &bn(3), &fname, true);
+            blocks.push(blk(&bn(3), d3, j3));
+            blocks.extend(extra);
+        }
+        _ => {
+            // loop back-edge: the loop body reads the register and repeats the same cycle
+            count("cycle:loop");
+            let mut dn = 0;
+            let d0 = cycle_defs(rng, &regs, &fns, &bn(0), &mut dn);
+            blocks.push(blk(&bn(0), d0, vec![j_branch(&format!("{}_j0", bn(0)), &bn(1))]));
+            let (mut d1, _, _) = cycle_reads(rng, x, &regs, &bn(1), &fname, false);
+            let mut dn1 = d1.len();
+            d1.extend(cycle_defs(rng, &regs, &fns, &bn(1), &mut dn1));
+            let cond = if rng.chance(1, 2) { e_var(*rng.pick(&FLAGS), 1) } else { e_bin(BinOpType::IntLess, e_var(x, 8), e_const(0x1000, 8)) };
+            blocks.push(blk(&bn(1), d1, vec![j_cbranch(&format!("{}_j0", bn(1)), &bn(1), cond), j_branch(&format!("{}_j1", bn(1)), &bn(2))]));
+            let (d2, j2, extra) = cycle_reads(rng, x, &regs, &bn(2), &fname, true);
+            blocks.push(blk(&bn(2), d2, j2));
+            blocks.extend(extra);
+        }
+    }
+    sub(&fname, &fname, blocks, Some("__stdcall"))
+}
+
+/// directed programs for the assignment-cycle shape (always run by h_c10, and kept in corpus/C10)
+pub fn cycle_directed_programs() -> Vec<(&'static str, Program)> {
+    use BinOpType::*;
+    let ext = || vec![extern_symbol("ext_a", "ext_a", vec![], vec![], false)];
+    let one_fn = |blocks: Vec<Term<Blk>>| program(vec![sub("sub_0", "sub_0", blocks, Some("__stdcall"))], ext(), vec![tid("sub_0")]);
+    let r = |n: &str| e_var(n, 8);
+    let ret = |t: &str| j_return(t, e_const(0x401000, 8));
+    let mut v = Vec::new();
+    // `RBX = RAX + 1; RAX = RBX + RBX; jmp` — the successor stores RAX and copies it
+    v.push((
+        "prop-cycle-jump",
+        one_fn(vec![
+            blk(
+                "b0",
+                vec![
+                    d_assign("b0_d0", var("RBX", 8), e_bin(IntAdd, r("RAX"), e_const(1, 8))),
+                    d_assign("b0_d1", var("RAX", 8), e_bin(IntAdd, r("RBX"), r("RBX"))),
+                ],
+                vec![j_branch("b0_j0", "b1")],
+            ),
+            blk(
+                "b1",
+                vec![
+                    d_store("b1_d0", e_bin(IntSub, r("RSP"), e_const(8, 8)), r("RAX")),
+                    d_assign("b1_d1", var("RCX", 8), r("RAX")),
+                ],
+                vec![ret("b1_j0")],
+            ),
+        ]),
+    ));
+    // a diamond whose arms agree; the join block uses the register as load address and in its condition
+    v.push((
+        "prop-cycle-diamond",
+        one_fn(vec![
+            blk(
+                "b0",
+                vec![
+                    d_assign("b0_d0", var("RDX", 8), e_bin(IntXOr, r("RSI"), e_const(0xff, 8))),
+                    d_assign("b0_d1", var("RSI", 8), e_bin(IntSub, r("RDX"), e_const(8, 8))),
+                ],
+                vec![j_cbranch("b0_j0", "b1", e_var("ZF", 1)), j_branch("b0_j1", "b2")],
+            ),
+            blk("b1", vec![d_assign("b1_d0", var("RCX", 8), e_const(7, 8))], vec![j_branch("b1_j0", "b3")]),
+            blk("b2", vec![], vec![j_branch("b2_j0", "b3")]),
+            blk(
+                "b3",
+                vec![d_load("b3_d0", var("RDI", 8), r("RSI"))],
+                vec![j_cbranch("b3_j0", "b4", e_bin(IntEqual, r("RSI"), e_const(0xf7, 8))), j_branch("b3_j1", "b5")],
+            ),
+            blk("b4", vec![d_assign("b4_d0", var("RAX", 8), e_const(1, 8))], vec![ret("b4_j0")]),
+            blk("b5", vec![d_assign("b5_d0", var("RAX", 8), e_const(2, 8))], vec![ret("b5_j0")]),
+        ]),
+    ));
+    // a loop whose body repeats the cycle of the entry block and stores the register on every iteration
+    v.push((
+        "prop-cycle-loop",
+        one_fn(vec![
+            blk(
+                "b0",
+                vec![
+                    d_assign("b0_d0", var("R8", 8), e_bin(IntAdd, r("RBP"), r("RBP"))),
+                    d_assign("b0_d1", var("RBP", 8), e_bin(IntAdd, r("R8"), e_const(3, 8))),
+                ],
+                vec![j_branch("b0_j0", "b1")],
+            ),
+            blk(
+                "b1",
+                vec![
+                    d_store("b1_d0", e_bin(IntSub, r("RSP"), e_const(16, 8)), r("RBP")),
+                    d_assign("b1_d1", var("R8", 8), e_bin(IntAdd, r("RBP"), r("RBP"))),
+                    d_assign("b1_d2", var("RBP", 8), e_bin(IntAdd, r("R8"), e_const(3, 8))),
+                ],
+                vec![j_cbranch("b1_j0", "b1", e_bin(IntLess, r("RBP"), e_const(0x40, 8))), j_branch("b1_j1", "b2")],
+            ),
+            blk("b2", vec![d_assign("b2_d0", var("RAX", 8), r("RBP"))], vec![ret("b2_j0")]),
+        ]),
+    ));
+    // a cycle through three registers; the successor uses the register as store address and return target
+    v.push((
+        "prop-cycle3-return",
+        one_fn(vec![
+            blk(
+                "b0",
+                vec![
+                    d_assign("b0_d0", var("RBX", 8), e_bin(IntSub, r("RCX"), e_const(2, 8))),
+                    d_assign("b0_d1", var("RDX", 8), e_bin(IntAdd, r("RBX"), r("RDI"))),
+                    d_assign("b0_d2", var("RCX", 8), e_un(UnOpType::Int2Comp, r("RDX"))),
+                ],
+                vec![j_branch("b0_j0", "b1")],
+            ),
+            blk("b1", vec![d_store("b1_d0", r("RCX"), r("RAX"))], vec![j_return("b1_j0", r("RCX"))]),
+        ]),
+    ));
+    v
+}
+
 pub fn gen_program(rng: &mut Rng, flavor: Flavor, counts: &mut BTreeMap<String, u64>) -> Program {
+    if flavor == Flavor::Behaviour && rng.chance(1, 8) {
+        // assignment cycle across a block boundary (one function, sometimes followed by an ordinary one)
+        let nsubs = if rng.chance(1, 4) { 2 } else { 1 };
+        let shape = ProgShape { nsubs, externs: vec!["ext_a".to_string(), "ext_b".to_string()] };
+        let mut subs = vec![gen_cycle_function(rng, 0, counts)];
+        if nsubs == 2 {
+            subs.push(gen_function(rng, 1, &shape, flavor, counts));
+        }
+        let externs = vec![extern_symbol("ext_a", "ext_a", vec![], vec![], false), extern_symbol("ext_b", "ext_b", vec![], vec![], false)];
+        return program(subs, externs, vec![tid("sub_0")]);
+    }
     let nsubs = 1 + [0usize, 0, 0, 1, 1, 2][rng.below(6) as usize];
     let shape = ProgShape { nsubs, externs: vec!["ext_a".to_string(), "ext_b".to_string()] };
     let subs: Vec<Term<Sub>> = (0..nsubs).map(|i| gen_function(rng, i, &shape, flavor, counts)).collect();
@@ -1179,6 +1467,7 @@ pub fn crafted_programs() -> Vec<(&'static str, Program)> {
             d_store("d4", rsp(), e_var("RAX", 8)),
         ],
     ));
+    v.extend(cycle_directed_programs());
     v.push(sa(
         "sa-align-8",
         vec![
